@@ -80,6 +80,21 @@ Definition is_alpha8 (c : N) : bool := let b := low_byte c in is_ascii_upper b |
 Definition is_alnum8 (c : N) : bool := is_alpha8 c || is_digit (low_byte c).
 Definition is_ident_char (c : N) : bool := is_alnum8 c || (c =? 95).
 Definition starts_ident (c : N) : bool := is_alpha8 c || (c =? 95).
+(** a keyword: the tag, and — for the keywords the source wraps in [word(..)] (re-read into
+    Generated.word_keywords) — not followed by a character that would continue an identifier *)
+Definition is_word_kw (t : String.string) : bool := existsb (String.eqb t) Generated.word_keywords.
+Definition pkw (t : String.string) : parser unit :=
+  fun s => match strip_prefix (lit t) s with
+           | Some r => if is_word_kw t && (match r with c :: _ => is_ident_char c | [] => false end)
+                       then PFail else POk tt r
+           | None => PFail
+           end.
+Fixpoint pkws (tags : list String.string) : parser unit :=
+  fun s => match tags with
+           | [] => PFail
+           | t :: r => match pkw t s with POk u x => POk u x | _ => pkws r s end
+           end.
+
 Definition is_keyword_char (c : N) : bool :=
   (c =? 45) || (c =? 95) || (c =? 58) || (c =? 47) || (c =? 46) || (c =? 43) || (c =? 64) || (c =? 35)
   || (c =? 36) || (c =? 37) || (c =? 94) || (c =? 42) || is_alnum8 c.
@@ -342,9 +357,9 @@ Definition literal_value : parser expr :=
   pmap (fun x => EVal (VStr x)) quoted_string
   <|> pmap (fun ns => EVal (VDur ns)) duration
   <|> pmap (fun d => EVal (from_string d)) pdigit1
-  <|> pmap (fun _ => EVal (VBool true)) (ptag "true")
-  <|> pmap (fun _ => EVal (VBool false)) (ptag "false")
-  <|> pmap (fun _ => EVal VNone) (ptag "null").
+  <|> pmap (fun _ => EVal (VBool true)) (pkw "true")
+  <|> pmap (fun _ => EVal (VBool false)) (pkw "false")
+  <|> pmap (fun _ => EVal VNone) (pkw "null").
 
 (** the expression levels of lang.rs (arg_list, atomic, unary, term, arith_expr, cmp_expr,
     logical_and, logical_or), each written over the parser [opt_e] for a nested expression
@@ -706,7 +721,7 @@ Definition p_parse : parser lstage :=
     LET is_regex, r1 <- popt (fun s => LET _a, x <- ptag "regex" s IN ms1 x) r0 IN
     LET pat, r2 <- req_quoted_string r1 IN
     LET from1, r3 <- opt_ws1_then from_clause r2 IN
-    LET flds, r4 <- popt (fun s => LET _a, x <- ms1 s IN LET _b, y <- ptag "as" x IN var_list y) r3 IN
+    LET flds, r4 <- popt (fun s => LET _a, x <- ms1 s IN LET _b, y <- ptag "as" x IN LET _c, z <- ms1 y IN var_list z) r3 IN
     LET from2, r5 <- opt_ws1_then from_clause r4 IN
     LET nodrop, r6 <- opt_ws1_then (ptag "nodrop") r5 IN
     LET noconv, r7 <- opt_ws1_then (ptag "noconvert") r6 IN
@@ -724,12 +739,25 @@ Definition p_parse : parser lstage :=
         end
     end.
 
-(** fields_mode: the alternatives in source order (Generated.fields_mode_tags) *)
-Fixpoint fields_mode_from (table : list (String.string * list String.string)) (s : str) : pres bool :=
+(** fields_mode: the alternatives in source order (Generated.fields_mode_tags); a tag flagged [true]
+    is a whole word: it must be followed by whitespace (peek(multispace1), since a6b1cfe) *)
+Fixpoint first_word_tag (tags : list (String.string * bool)) (s : str) : option str :=
+  match tags with
+  | [] => None
+  | (t, word) :: r =>
+      match strip_prefix (lit t) s with
+      | Some rest =>
+          if word && negb (match rest with c :: _ => is_space c | [] => false end)
+          then first_word_tag r s else Some rest
+      | None => first_word_tag r s
+      end
+  end.
+
+Fixpoint fields_mode_from (table : list (String.string * list (String.string * bool))) (s : str) : pres bool :=
   match table with
   | [] => PFail
   | (ctor, tags) :: r =>
-      match first_tag tags s with
+      match first_word_tag tags s with
       | Some rest => POk (String.eqb ctor "Only") rest
       | None => fields_mode_from r s
       end
@@ -743,7 +771,7 @@ Definition p_fields : parser lstage :=
            POk (LStage (SFields (match mode with Some m => m | None => true end) fs)) r3.
 
 Definition p_split : parser lstage :=
-  fun s => LET _u, r <- ptag "split" s IN
+  fun s => LET _u, r <- pkw "split" s IN
            LET arg, r1 <- popt single_arg r IN
            LET on, r2 <- popt (word_then "on" req_quoted_string) r1 IN
            LET as_, r3 <- popt (word_then "as" req_expr) r2 IN
@@ -752,21 +780,21 @@ Definition p_split : parser lstage :=
                                (match as_ with Some x => Some x | None => arg end))) r4.
 
 Definition p_timeslice : parser lstage :=
-  fun s => LET _u, r <- ptag "timeslice" s IN
+  fun s => LET _u, r <- pkw "timeslice" s IN
            LET e, r1 <- req_single_arg r IN
            LET d, r2 <- opt_ws1_then duration r1 IN
            LET n, r3 <- popt (word_then "as" ident) r2 IN
            LET _e, r4 <- expect_pipe r3 IN POk (LTimeslice e d n) r4.
 
 Definition p_total : parser lstage :=
-  fun s => LET _u, r <- ptag "total" s IN
+  fun s => LET _u, r <- pkw "total" s IN
            LET e, r1 <- req_single_arg r IN
            LET n, r2 <- popt (word_then "as" req_ident) r1 IN
            LET _e, r3 <- expect_pipe r2 IN
            POk (LStage (STotal e (match n with Some x => x | None => lit "_total" end))) r3.
 
 Definition p_where : parser lstage :=
-  fun s => LET _u, r <- ptag "where" s IN
+  fun s => LET _u, r <- pkw "where" s IN
            LET e, r1 <- (fun s => match ms1 s with
                                   | POk _ x => match req_expr x with
                                                | POk e y => POk (Some e) (skip_spaces y)
@@ -816,18 +844,18 @@ Definition p_pct : parser (lagg * str) :=
            else PFatal.
 
 Definition p_aggfn : parser (lagg * str) :=
-  (fun s => LET _u, r <- ptag "count_distinct" s IN
+  (fun s => LET _u, r <- pkw "count_distinct" s IN
             LET args, r1 <- popt p_arg_list r IN
             match args with
             | Some [e] => POk (LAgg (FDistinct e), []) r1
             | _ => POk (LAggDistinctBad, []) r1
             end)
-  <|> (fun s => LET _u, r <- ptag "count" s IN LET c, r1 <- popt single_arg r IN POk (LAgg (FCount c), []) r1)
-  <|> (fun s => LET _u, r <- ptag "min" s IN LET e, r1 <- req_single_arg r IN POk (LAgg (FMin e), []) r1)
-  <|> (fun s => LET _u, r <- ptag "max" s IN LET e, r1 <- req_single_arg r IN POk (LAgg (FMax e), []) r1)
+  <|> (fun s => LET _u, r <- pkw "count" s IN LET c, r1 <- popt single_arg r IN POk (LAgg (FCount c), []) r1)
+  <|> (fun s => LET _u, r <- pkw "min" s IN LET e, r1 <- req_single_arg r IN POk (LAgg (FMin e), []) r1)
+  <|> (fun s => LET _u, r <- pkw "max" s IN LET e, r1 <- req_single_arg r IN POk (LAgg (FMax e), []) r1)
   <|> p_pct
-  <|> (fun s => LET _u, r <- ptag "sum" s IN LET e, r1 <- req_single_arg r IN POk (LAgg (FSum e), []) r1)
-  <|> (fun s => LET _u, r <- ptags Generated.avg_tags s IN LET e, r1 <- req_single_arg r IN POk (LAgg (FAvg e), []) r1).
+  <|> (fun s => LET _u, r <- pkw "sum" s IN LET e, r1 <- req_single_arg r IN POk (LAgg (FSum e), []) r1)
+  <|> (fun s => LET _u, r <- pkws Generated.avg_tags s IN LET e, r1 <- req_single_arg r IN POk (LAgg (FAvg e), []) r1).
 
 Definition p_agg_oper : parser (str * lagg) :=
   fun s => LET a, r <- p_aggfn (skip_spaces s) IN
@@ -848,7 +876,7 @@ Definition p_multi_agg : parser lop :=
            POk (LMultiAgg fns (match keys with Some k => k | None => [] end)) r2.
 
 Definition p_sort : parser lop :=
-  fun s => LET _u, r <- ptag "sort" s IN
+  fun s => LET _u, r <- pkw "sort" s IN
            LET keys, r1 <- popt (word_then "by" sourced_expr_list) r IN
            LET mode, r2 <- (fun s => match ms1 s with
                                      | POk _ x => match sort_mode_from Generated.sort_mode_tags x with
